@@ -2,29 +2,52 @@
 //! cases and write one line per case (`fn<TAB>args...<TAB>impl-output`) for the Lean driver.
 mod alloc;
 mod common;
+#[cfg(feature = "c12")]
 mod c12;
+#[cfg(feature = "c06")]
 mod c06;
+#[cfg(feature = "c20")]
 mod c20_scn;
+#[cfg(feature = "c20")]
 mod c20;
+#[cfg(feature = "c14")]
 mod c14;
+#[cfg(feature = "c11")]
 mod c11;
+#[cfg(feature = "c19")]
 mod c19;
+#[cfg(feature = "c03")]
 mod c03;
 mod worker;
+#[cfg(feature = "c01")]
 mod c01;
+#[cfg(feature = "c04")]
 mod c04;
+#[cfg(feature = "c13")]
 mod c13;
+#[cfg(feature = "c08")]
 mod c08;
+#[cfg(feature = "c09")]
 mod c09;
+#[cfg(feature = "c15")]
 mod c15;
+#[cfg(feature = "c10")]
 mod c10;
+#[cfg(feature = "c16")]
 mod c16;
+#[cfg(feature = "c17")]
 mod c17;
+#[cfg(feature = "c18")]
 mod c18;
+#[cfg(feature = "c18")]
 mod c18a; // C18: percent-encoding + Base64 half
+#[cfg(feature = "c18")]
 mod c18b; // C18: dates + SHA-1 half
+#[cfg(feature = "c02")]
 mod c02;
+#[cfg(feature = "c05")]
 mod c05;
+#[cfg(feature = "c07")]
 mod c07;
 mod httpgen;
 mod tables;
@@ -35,6 +58,7 @@ static GLOBAL: alloc::Counting = alloc::Counting;
 /// Direct execution of one case inside this process.
 fn exec_inproc(prop: &str, f: &[String]) -> Option<String> {
     match prop {
+        #[cfg(feature = "c03")]
         "C03" => c03::exec(f),
         _ => exec(prop, f),
     }
@@ -42,24 +66,43 @@ fn exec_inproc(prop: &str, f: &[String]) -> Option<String> {
 
 fn exec(prop: &str, f: &[String]) -> Option<String> {
     match prop {
+        #[cfg(feature = "c03")]
         "C03" => c03::exec_isolated(f),
+        #[cfg(feature = "c01")]
         "C01" | "C04" => c01::exec(f),
+        #[cfg(feature = "c02")]
         "C02" => c02::exec(f),
+        #[cfg(feature = "c05")]
         "C05" => c05::exec(f),
+        #[cfg(feature = "c07")]
         "C07" => c07::exec(f),
+        #[cfg(feature = "c18")]
         "C18" => c18::exec(f),
+        #[cfg(feature = "c17")]
         "C17" => c17::exec(f),
+        #[cfg(feature = "c16")]
         "C16" => c16::exec(f),
+        #[cfg(feature = "c09")]
         "C09" => c09::exec(f),
+        #[cfg(feature = "c10")]
         "C10" => c10::exec(f),
+        #[cfg(feature = "c15")]
         "C15" => c15::exec(f),
+        #[cfg(feature = "c08")]
         "C08" => c08::exec(f),
+        #[cfg(feature = "c13")]
         "C13" => c13::exec(f),
+        #[cfg(feature = "c19")]
         "C19" => c19::exec(f),
+        #[cfg(feature = "c11")]
         "C11" => c11::exec(f),
+        #[cfg(feature = "c14")]
         "C14" => c14::exec(f),
+        #[cfg(feature = "c20")]
         "C20" => c20::exec(f),
+        #[cfg(feature = "c06")]
         "C06" => c06::exec(f),
+        #[cfg(feature = "c12")]
         "C12" => c12::exec(f),
         _ => None,
     }
@@ -76,16 +119,19 @@ fn main() {
         worker::worker_main(&args[2], exec_inproc);
         return;
     }
+    #[cfg(feature = "c12")]
     if args.len() == 2 && args[1] == "__c12child" {
         // private sub-command: one child process per batch of async-app scenarios (see c12.rs)
         c12::child();
         return;
     }
+    #[cfg(feature = "c20")]
     if args.len() == 2 && args[1] == "__c20child" {
         // private sub-command: one child process per batch of shutdown scenarios (see c20.rs)
         c20::child();
         return;
     }
+    #[cfg(feature = "c08")]
     if args.len() == 2 && args[1] == "__c08child" {
         // private sub-command: one child process per batch of pool scripts (see c08.rs)
         c08::child();
@@ -120,25 +166,45 @@ fn main() {
     let seed: u64 = args[3].parse().unwrap_or(1);
     let mut out = common::Out::new(&args[4]);
     match args[1].as_str() {
+        #[cfg(feature = "c01")]
         "C01" => c01::gen(&mut out, thorough, seed),
+        #[cfg(feature = "c03")]
         "C03" => c03::gen(&mut out, thorough, seed),
+        #[cfg(feature = "c04")]
         "C04" => c04::gen(&mut out, thorough, seed),
+        #[cfg(feature = "c02")]
         "C02" => c02::gen(&mut out, thorough, seed),
+        #[cfg(feature = "c05")]
         "C05" => c05::gen(&mut out, thorough, seed),
+        #[cfg(feature = "c07")]
         "C07" => c07::gen(&mut out, thorough, seed),
+        #[cfg(feature = "c18")]
         "C18" => c18::gen(&mut out, thorough, seed),
+        #[cfg(feature = "c17")]
         "C17" => c17::gen(&mut out, thorough, seed),
+        #[cfg(feature = "c16")]
         "C16" => c16::gen(&mut out, thorough, seed),
+        #[cfg(feature = "c09")]
         "C09" => c09::gen(&mut out, thorough, seed),
+        #[cfg(feature = "c10")]
         "C10" => c10::gen(&mut out, thorough, seed),
+        #[cfg(feature = "c15")]
         "C15" => c15::gen(&mut out, thorough, seed),
+        #[cfg(feature = "c08")]
         "C08" => c08::gen(&mut out, thorough, seed),
+        #[cfg(feature = "c13")]
         "C13" => c13::gen(&mut out, thorough, seed),
+        #[cfg(feature = "c19")]
         "C19" => c19::gen(&mut out, thorough, seed),
+        #[cfg(feature = "c11")]
         "C11" => c11::gen(&mut out, thorough, seed),
+        #[cfg(feature = "c14")]
         "C14" => c14::gen(&mut out, thorough, seed),
+        #[cfg(feature = "c20")]
         "C20" => c20::gen(&mut out, thorough, seed),
+        #[cfg(feature = "c06")]
         "C06" => c06::gen(&mut out, thorough, seed),
+        #[cfg(feature = "c12")]
         "C12" => c12::gen(&mut out, thorough, seed),
         other => {
             eprintln!("unknown property {}", other);
